@@ -66,7 +66,7 @@ def gen_case(ctx, idx, stream='case'):
     if c['source'] == 'single':
         c['planes'] = 1
     else:
-        c['planes'] = r.choice([1, 2, 2, 3, 3, 3, 4, 5, 6, 6, 11, 13])      # a tail beyond 9 (two-digit frame numbers)
+        c['planes'] = r.choice([1, 2, 2, 3, 3, 3, 4, 4, 5, 5, 6, 6, 6, r.choice([11, 13])])      # a tail beyond 9 (two-digit frame numbers)
     u = r.random()
     if u < 0.45:
         c['rows'], c['cols'] = r.randint(1, 3), r.randint(1, 4)         # many frames with < 8 pixels
@@ -746,7 +746,7 @@ def _helpers(ctx, reqs, pending):
     if cast is None or segpx is None:
         ctx.note('L2 helpers _check_and_cast_pixel_array / _get_segment_pixel_array not found; skipped')
         return
-    for idx in range(ctx.n(1500, 30000)):
+    for idx in range(ctx.n(1500, 20000)):
         r = ctx.rng('helper', idx)
         nr = ctx.np_rng('helper/pix', idx)
         typ = r.choice(['BINARY', 'FRACTIONAL', 'LABELMAP'])
@@ -958,7 +958,7 @@ def _drift_factor(ctx):
 
 def _many_segments(ctx, reqs, pending):
     """A few masks with several hundred segments (labels and channel indices beyond one byte)."""
-    for idx in range(1 if ctx.tier == 'quick' else 4):
+    for idx in range(1 if ctx.tier == 'quick' else 3):
         r = ctx.rng('many', idx)
         nseg = r.choice([260, 300])
         typ = r.choice(['BINARY', 'FRACTIONAL', 'LABELMAP'])
@@ -1000,7 +1000,7 @@ def run(ctx):
     if not ctx.search_mode:
         _exhaustive_sizes(ctx, reqs, pending)
     _many_segments(ctx, reqs, pending)
-    for idx in range(ctx.n(480, 5000) * _drift_factor(ctx)):
+    for idx in range(ctx.n(480, 3600) * _drift_factor(ctx)):
         c = gen_case(ctx, idx)
         run_case(ctx, c, reqs, pending)
     _compare(ctx, reqs, pending)
